@@ -24,8 +24,9 @@ NSHARDS = 16
 
 GROUP_DELIMS = [[['{', '}']], [['{', '}'], ['[', ']']], [['<', '>']], [['{', '}'], ['(', ')']]]
 INLINE_DELIMS = [[['$', '$'], ['\\(', '\\)']], [['$', '!']], [['$', '$']], [['!', '!']],
-                 [['\\(', '\\)']]]
-DISPLAY_DELIMS = [[['$$', '$$'], ['\\[', '\\]']], [['\\[', '\\]']], [['$$', '!!']], [['!!', '!!']]]
+                 [['\\(', '\\)']], []]
+DISPLAY_DELIMS = [[['$$', '$$'], ['\\[', '\\]']], [['\\[', '\\]']], [['$$', '!!']], [['!!', '!!']],
+                  []]
 FLAGS = ['enable_double_newline_paragraphs', 'enable_macros', 'enable_environments',
          'enable_comments', 'enable_groups', 'enable_specials', 'enable_math']
 GROUP_OF = {'latex_group_delimiters': 'G', 'latex_inline_math_delimiters': 'M',
@@ -53,7 +54,9 @@ def step_strategy():
         st.sampled_from(DISPLAY_DELIMS).map(lambda v: {'latex_display_math_delimiters': v}),
         st.tuples(st.sampled_from(FLAGS), st.booleans()).map(lambda t: {t[0]: t[1]}),
         st.sampled_from(['\\', '|']).map(lambda v: {'macro_escape_char': v}),
-        st.sampled_from(['%', '#']).map(lambda v: {'comment_start': v}),
+        st.sampled_from(['%', '#', '%%']).map(lambda v: {'comment_start': v}),
+        st.sampled_from(['abcdefghijklmnopqrstuvwxyzABCDEFGHIJKLMNOPQRSTUVWXYZ', 'b', 'a@']).map(
+            lambda v: {'macro_alpha_chars': v}),
         st.sampled_from(['', 'a', '$%']).map(lambda v: {'forbidden_characters': v}),
         st.just({}),
     ]
@@ -95,8 +98,11 @@ def base_state(root_fields=None):
 
 
 def alphabet_for(chain):
-    toks = ['a', ' ', '\\', '%', '{', '}', '$']
-    for step in chain:
+    # delimiters of the last steps first (the alphabet is truncated), then the fixed symbols;
+    # '~', a blank line and \\begin make the enable_specials / paragraph / environment flags
+    # observable
+    toks = []
+    for step in reversed(chain):
         for k, v in step.items():
             if k.endswith('_delimiters'):
                 for o, c in v:
@@ -104,7 +110,8 @@ def alphabet_for(chain):
             elif k in ('macro_escape_char', 'comment_start'):
                 toks.append(v)
             elif k == 'math_mode_delimiter' and v:
-                toks.append(v)
+                toks += [v, {'\\(': '\\)', '\\[': '\\]'}.get(v, v)]
+    toks += ['a', ' ', '\\', '%', '{', '}', '$', '~', '\n\n', '\\begin{a}', '\\end{a}', '@']
     seen, out = set(), []
     for t in toks:
         if t not in seen:
@@ -189,8 +196,18 @@ def check_chain(chain, strings, res, case_base, label=True, root=None):
                     if len(toks) <= 2:
                         parent_before[tuple(toks)] = token_seq(''.join(toks), states[-1], True)
             states.append(states[-1].sub_context(**to_kwargs(step)))
+            # the fields of the derived state are those of the state it was derived from with
+            # the given ones replaced -- as the constructor itself interprets such a field set
+            from pylatexenc.latexnodes import ParsingState
+            asked = ParsingState(**dict(states[-2].get_fields(), **to_kwargs(step)))
+            if snap(states[-1]) != snap(asked):
+                diff = sorted(k for k in snap(asked) if snap(asked)[k] != snap(states[-1]).get(k))
+                res.fail('c17:derived-fields-not-as-requested:' + ','.join(diff)[:60],
+                         'step %d %r: derived state has %r, a state built directly from the '
+                         'parent\'s fields with these replaced has %r'
+                         % (si, step, {k: snap(states[-1]).get(k) for k in diff},
+                            {k: snap(asked)[k] for k in diff}), dict(case_base, tokens=[]))
         derived = states[-1]
-        from pylatexenc.latexnodes import ParsingState
         fresh = ParsingState(**derived.get_fields())
     except Exception as e:
         res.fail(exc_key(e), exc_detail(e), dict(case_base, tokens=[]))
@@ -266,6 +283,8 @@ MATH_STEPS = [
     {'in_math_mode': True, 'math_mode_delimiter': '$$'},
     {'in_math_mode': True, 'math_mode_delimiter': '\\('},
     {'in_math_mode': True, 'math_mode_delimiter': '!'},
+    {'in_math_mode': True, 'math_mode_delimiter': None},
+    {'in_math_mode': True, 'math_mode_delimiter': '\\['},
     {'in_math_mode': True},
     {'in_math_mode': False},
     {'in_math_mode': False, 'math_mode_delimiter': None},
@@ -273,6 +292,8 @@ MATH_STEPS = [
     {'latex_inline_math_delimiters': [['$', '!']]},
     {'latex_inline_math_delimiters': [['!', '!']]},
     {'latex_display_math_delimiters': [['$$', '!!']]},
+    {'latex_inline_math_delimiters': []},
+    {'latex_display_math_delimiters': []},
     {'enable_math': False},
     {'enable_math': True},
     {'enable_groups': False},
@@ -283,30 +304,72 @@ MATH_STEPS = [
 ]
 
 
+# the steps through which the cached math tables are inherited or rebuilt: chains of three over
+# these are enumerated in the quick tier too (longer chains over all steps in the thorough tier)
+CORE_STEPS = [st for st in MATH_STEPS if st in (
+    {'in_math_mode': True, 'math_mode_delimiter': '$'},
+    {'in_math_mode': True, 'math_mode_delimiter': '\\('},
+    {'in_math_mode': True, 'math_mode_delimiter': None},
+    {'in_math_mode': True}, {'in_math_mode': False},
+    {'in_math_mode': False, 'math_mode_delimiter': None},
+    {'latex_inline_math_delimiters': [['$', '!']]}, {'latex_inline_math_delimiters': []},
+    {'enable_math': False}, {'latex_group_delimiters': [['{', '}'], ['[', ']']]}, {})]
+
+
+# further exhaustive families: every chain of <= 2 (quick) / <= 3 (thorough) steps within one
+# field group, so that each kind of replacement (longer / shorter / disjoint list, flag on/off
+# and back, character changed and restored) occurs deterministically
+FAMILIES = {
+    'group': [{'latex_group_delimiters': v} for v in GROUP_DELIMS + [
+        [['[', ']'], ['<', '>']], [['{', '}'], ['[', ']'], ['<', '>']]]],     # (an empty list is
+    # rejected by the constructor itself, derived or not: not generated)
+    'inline': [{'latex_inline_math_delimiters': v} for v in INLINE_DELIMS] + [
+        {'in_math_mode': True, 'math_mode_delimiter': '$'}, {'in_math_mode': False}],
+    'display': [{'latex_display_math_delimiters': v} for v in DISPLAY_DELIMS] + [
+        {'in_math_mode': True, 'math_mode_delimiter': '$$'}, {'in_math_mode': False}],
+    'flags': [{f: b} for f in FLAGS for b in (False, True)],
+    'chars': [{'macro_escape_char': '|'}, {'macro_escape_char': '\\'}, {'comment_start': '#'},
+              {'comment_start': '%%'}, {'comment_start': '%'}, {'forbidden_characters': 'a$'},
+              {'forbidden_characters': ''}, {'macro_alpha_chars': 'a@'},
+              {'macro_alpha_chars': 'abcdefghijklmnopqrstuvwxyzABCDEFGHIJKLMNOPQRSTUVWXYZ'}],
+}
+
+
 def plan(tier, seed):
     n, L = (320, 3) if tier == 'quick' else (6400, 4)
     shards = [('chains', n // NSHARDS, L, seed * 1000 + k) for k in range(NSHARDS)]
-    shards += [('enum', 3 if tier == 'quick' else 4, 2, k) for k in range(NSHARDS)]
+    shards += [('enum', 2 if tier == 'quick' else 3, 2, k) for k in range(NSHARDS)]
+    shards += [('enumcore', 3 if tier == 'quick' else 4, 2, k) for k in range(NSHARDS)]
+    shards += [('fam:' + f, 2 if tier == 'quick' else 3, 2, k) for f in sorted(FAMILIES)
+               for k in range(4)]
     return {'shards': shards, 'bounds': {'chains': n, 'max_chain': 5, 'string_tokens': L},
             'required_classes': ['changed:G', 'changed:M', 'changed:I', 'changed:F', 'changed:C',
                                  'delimiter-list-changed-while-in-math', 'no-op-step',
-                                 'non-trivial', 'enumerated-chain']}
+                                 'non-trivial', 'enumerated-chain', 'family:group',
+                                 'family:inline', 'family:display', 'family:flags',
+                                 'family:chars']}
 
 
 def strings_for(chain, L):
     alpha = alphabet_for(chain)
     # bound the work per chain: full enumeration up to L over at most 12 symbols
-    alpha = alpha[:12]
+    alpha = alpha[:13]
     return [t for l in range(1, L + 1) for t in itertools.product(alpha, repeat=l)]
 
 
 def run_shard(shard, res):
-    if shard[0] == 'enum':
+    if shard[0] in ('enum', 'enumcore') or shard[0].startswith('fam:'):
         _, clen, L, k = shard
         i = 0
-        for l in range(1, clen + 1):
-            for chain in itertools.product(MATH_STEPS, repeat=l):
-                if i % NSHARDS == k:
+        nsh = NSHARDS
+        if shard[0].startswith('fam:'):
+            steps, nsh = FAMILIES[shard[0][4:]], 4
+            res.label('family:' + shard[0][4:])
+        else:
+            steps = MATH_STEPS if shard[0] == 'enum' else CORE_STEPS
+        for l in range(clen if shard[0] == 'enumcore' else 1, clen + 1):
+            for chain in itertools.product(steps, repeat=l):
+                if i % nsh == k:
                     chain = [dict(c) for c in chain]
                     check_chain(chain, strings_for(chain, L), res, {'chain': chain})
                     res.label('enumerated-chain')
